@@ -63,6 +63,9 @@ func checkSequence(ctx *pbt.Ctx, c SeqCase) error {
 	}
 	var kept []handed
 	eng := interpreter.NewEngine()
+	// the option values are built once per case and handed to every call that needs them
+	libexec.SetPool(libexec.NewOptPool())
+	defer libexec.SetPool(nil)
 	look := func(after int) error {
 		for _, h := range kept {
 			if h.obj.LockingScript != h.script {
